@@ -38,17 +38,23 @@ def parse(text):
         i += 1
     if i < len(lines) and lines[i].strip() == 'abstract AttributedFeature':
         i += 1
-        while i < len(lines) and lines[i].startswith('\t'):
-            m = re.match(r'^\t(.+?)\s*->\s*(\S*)\s*$', lines[i])
+        while i < len(lines) and lines[i][:1] in ('\t', ' ') and lines[i].strip():
+            m = re.match(r'^\s+(.+?)\s*->\s*(\S*)\s*$', lines[i])
             if not m:
                 raise ClaferError('bad attribute declaration %r' % lines[i])
             decls[m.group(1)] = m.group(2)
             i += 1
     stack = []
+    indents = []
     for line in lines[i:]:
         if not line.strip():
             continue
-        depth = len(line) - len(line.lstrip('\t'))
+        width = len(line[:len(line) - len(line.lstrip(' \t'))].expandtabs(8))
+        while indents and indents[-1] > width:
+            indents.pop()
+        if not indents or indents[-1] < width:
+            indents.append(width)
+        depth = len(indents) - 1
         body = line.strip()
         if body.startswith('['):
             if not body.endswith(']'):
